@@ -17,7 +17,9 @@ RULE = ("cases = (trajectory of 2..500 poses [+ second trajectory], plot mode, l
         "start/end markers, marker scale, colour array, error array / x array / cumulative); every plotting function of the anchor "
         "is called on fresh Agg figures and the data of the Line2D/Line3D/LineCollection/Line3DCollection/PathCollection artists "
         "and the label strings are read back; compared exactly (as rationals) with the series of the Lean model (only the tips of "
-        "the coordinate-frame markers of the random stream to 64 ulp: numpy's dot may fuse); all 7 modes x 4 units enumerated "
+        "the coordinate-frame markers of the random stream to 64 ulp: numpy's dot may fuse); trajectories built through the constructor "
+        "from int64/int32/float32/float64 position arrays (mixed pairs, both argument orders, offsets ~5e5, int colour/error arrays) are "
+        "compared with the model fed the exact rational value of each input element; all 7 modes x 4 units enumerated "
         "first, then random combinations; non-trivial = at least 3 poses and not all coordinates equal; distinct by content hash")
 
 MODES = ["xy", "xz", "yx", "yz", "zx", "zy", "xyz"]
@@ -112,12 +114,61 @@ def gen_case(r, grid, n, mode=None, unit=None):
             "step": step, "ncol": ncol, "clc_n": clc_n, "bad_unit": r.choice(NON_LENGTH) if r.random() < 0.05 else None}
 
 
+DTYPES = ["float64", "float32", "int64", "int32"]
+DTYPE_PAIRS = [("int64", "float64"), ("float64", "int64"), ("float32", "float64"), ("float64", "float32"), ("int32", "float32"),
+               ("float32", "int64"), ("int32", "int64"), ("float32", "float32")]
+
+
+def typed_positions(r, n, dtype, offset):
+    """values exactly representable in `dtype` (stored as Python floats = their exact value), not in the coarser types"""
+    out = []
+    p = [offset + r.randint(-50, 50), offset / 8 + r.randint(-50, 50), r.randint(-5, 5)]
+    for _ in range(n):
+        if dtype in ("int64", "int32"):
+            out.append([float(int(c)) for c in p])
+        elif dtype == "float32":
+            out.append([float(np.float32(c + r.random())) for c in p])
+        else:
+            out.append([float(c + r.choice([0.25, -0.5, 0.1, 0.7, r.random()])) for c in p])
+        p = [c + r.randint(-3, 3) for c in p]
+    return out
+
+
+def gen_typed_case(r, mode, dt1, dt2):
+    """trajectories built through the constructor from int / float32 / float64 position arrays (PosePath3D keeps the dtype)"""
+    c = gen_case(r, False, r.randint(3, 8), mode)
+    n = len(c["pos"])
+    offset = r.choice([0, 0, 450000, 5400000 // 8])
+    c["kind"] = "typed"
+    c["dtypes"] = [dt1, dt2]
+    c["pos"] = typed_positions(r, n, dt1, offset)
+    c["pos2"] = typed_positions(r, n, dt2, offset)
+    c["rot"] = [[1.0, 0.0, 0.0, 0.0, 1.0, 0.0, 0.0, 0.0, 1.0] for _ in range(n)]
+    c["arr_dtype"] = r.choice(["float64", "int64", "int32"])
+    if c["arr_dtype"] != "float64":
+        c["arr"] = [float(r.randint(0, 9)) for _ in c["arr"]]
+        c["amin"], c["amax"] = 0.0, 10.0
+    c["err_dtype"] = r.choice(["float64", "int64"])
+    if c["err_dtype"] != "float64":
+        c["err"] = [float(r.randint(0, 9)) for _ in c["err"]]
+        if c["err_x"] is not None:
+            c["err_x"] = [float(3 * k + 1) for k in range(n)]
+    c["scale"] = r.choice([0.5, 0.25, 1.0])
+    c["clc_n"] = min(c["clc_n"], n)
+    return c
+
+
 def gen_cases(ctx):
     r = ctx.rng
     # every mode x unit first (small, exact grid), then random combinations
     for mode in MODES:
         for unit in UNITS:
             yield gen_case(r, True, r.randint(2, 6), mode, unit)
+    # numeric types: every mode x mixed dtype pairs, both argument orders
+    for rep in range(1 if not ctx.thorough else 6):
+        for mode in MODES:
+            for dt1, dt2 in DTYPE_PAIRS:
+                yield gen_typed_case(r, mode, dt1, dt2)
     n_grid, n_rand = (110, 110) if not ctx.thorough else (900, 900)
     for k in range(n_grid):
         yield gen_case(r, True, r.choice([2, 3, 3, 4, 5, 8, 13, r.randint(2, 40)]))
@@ -131,8 +182,14 @@ def fl(a):
     return [float(x) for x in np.asarray(a, dtype=float).ravel()]
 
 
-def make_traj(pos, rot, stamps):
+def make_traj(pos, rot, stamps, dtype=None):
     from evo.core.trajectory import PosePath3D, PoseTrajectory3D
+    if dtype is not None:       # constructor route: the caller's array type is kept by PosePath3D
+        xyz = np.array(pos, dtype=dtype)
+        quat = np.array([[1.0, 0.0, 0.0, 0.0]] * len(pos))
+        if stamps is None:
+            return PosePath3D(positions_xyz=xyz, orientations_quat_wxyz=quat)
+        return PoseTrajectory3D(positions_xyz=xyz, orientations_quat_wxyz=quat, timestamps=np.array(stamps, dtype=float))
     poses = []
     for p, m in zip(pos, rot):
         T = np.eye(4)
@@ -182,8 +239,9 @@ def run_impl_(case):
     out = {}
     mode = plot.PlotMode[case["mode"]]
     unit = Unit[case["unit"]]
-    tr = make_traj(case["pos"], case["rot"], case["stamps"])
-    tr2 = make_traj(case["pos2"], case["rot"][:len(case["pos2"])], None)
+    dts = case.get("dtypes") or [None, None]
+    tr = make_traj(case["pos"], case["rot"], case["stamps"], dts[0])
+    tr2 = make_traj(case["pos2"], case["rot"][:len(case["pos2"])], None, dts[1])
 
     def guarded(name, f):
         try:
@@ -248,7 +306,7 @@ def run_impl_(case):
     def f_cmap():
         fig = plt.figure()
         ax = plot.prepare_axis(fig, mode, 111, unit)
-        plot.traj_colormap(ax, tr, np.array(case["arr"], dtype=float), mode, case["amin"], case["amax"], fig=fig,
+        plot.traj_colormap(ax, tr, np.array(case["arr"], dtype=case.get("arr_dtype", "float64")), mode, case["amin"], case["amax"], fig=fig,
                            plot_start_end_markers=case["markers"])
         c = ax.collections[0]
         d = {"segs": coll_segments(c), "colors": [fl(x) for x in c.get_color()], "ncoll": len(ax.collections),
@@ -263,7 +321,7 @@ def run_impl_(case):
 
     def f_clc():
         colors = ["red"] * case["ncol"]
-        lc = plot.colored_line_collection(np.array(case["pos"][:case["clc_n"]], dtype=float), colors, mode, step=case["step"])
+        lc = plot.colored_line_collection(np.array(case["pos"][:case["clc_n"]], dtype=dts[0] or "float64"), colors, mode, step=case["step"])
         out["clc"] = {"segs": coll_segments(lc)}
     guarded("clc", f_clc)
 
@@ -297,8 +355,9 @@ def run_impl_(case):
         fig = plt.figure()
         ax = fig.add_subplot(111)
         plt.sca(ax)
-        x = None if case["err_x"] is None else np.array(case["err_x"], dtype=float)
-        plot.error_array(ax, np.array(case["err"], dtype=float), x_array=x, cumulative=case["cumulative"],
+        edt = case.get("err_dtype", "float64")
+        x = None if case["err_x"] is None else np.array(case["err_x"], dtype=edt)
+        plot.error_array(ax, np.array(case["err"], dtype=edt), x_array=x, cumulative=case["cumulative"],
                          name="err", xlabel="xl")
         out["err"] = {"x": fl(ax.lines[0].get_xdata(orig=True)), "y": fl(ax.lines[0].get_ydata(orig=True)),
                       "labels": [ax.get_xlabel(), ax.get_ylabel()]}
@@ -522,7 +581,8 @@ def judge(ctx, case, impl, outs):
         core_ = rats(o["speedcore"])
         for k, (dsq, dt) in enumerate(chunks(core_, 2)):
             want = math.sqrt(dsq) / dt if dt > 0 else float("nan")
-            if not (abs(s["param"][k] - want) <= 64 * 2.0 ** -53 * (abs(want) + 1e-300) * 4 + 1e-300):
+            rel = 1e-5 if (case.get("dtypes") or [None])[0] == "float32" else 64 * 2.0 ** -53 * 4   # float32 positions: evo's norm is single precision
+            if not (abs(s["param"][k] - want) <= rel * (abs(want) + 1e-300) + 1e-300):
                 differs("traj.speeds value vs rational core", s["param"][k], want)
                 break
     elif s == "E_PLOT" and case["stamps"] is not None:
@@ -539,6 +599,8 @@ def judge(ctx, case, impl, outs):
     ctx.count("dist", f"mode:{m}")
     ctx.count("dist", f"unit:{case['unit']}")
     ctx.count("dist", case["kind"])
+    if case.get("dtypes"):
+        ctx.count("dist", "dtypes:" + "/".join(case["dtypes"]))
     ctx.count("dist", "timestamps" if case["stamps"] is not None else "no-timestamps")
     ctx.count("dist", "start:" + ("none" if case["start"] is None else "zero" if case["start"] == 0 else "given"))
     ctx.count("dist", "n" + ("<=8" if n <= 8 else "<=60" if n <= 60 else ">=200"))
@@ -702,7 +764,8 @@ def oracle(ctx, case, impl):
             for k in range(n - 1):
                 dsq = sum((frac(pos[k + 1][i]) - frac(pos[k][i])) ** 2 for i in range(3))
                 want = math.sqrt(dsq) / float(frac(st[k + 1]) - frac(st[k]))
-                if k >= len(s["y"]) or abs(s["y"][k] - want) > 1e-12 * (abs(want) + 1e-300) + 1e-300:
+                rel = 1e-5 if (case.get("dtypes") or [None])[0] == "float32" else 1e-12
+                if k >= len(s["y"]) or abs(s["y"][k] - want) > rel * (abs(want) + 1e-300) + 1e-300:
                     ctx.fail(case, "speed-against-time", f"value {k} is not the speed between poses {k} and {k + 1}", tags)
                     break
         if s["labels"] != ["$t$ (s)", "$v$ (m/s)"]:
